@@ -559,8 +559,7 @@ func splNoNil(s *sentPacketList, k int) bool {
 //@   modifies *s, elems(s.p)
 //@ func (*lossState).scheduleTimer(c, now)
 //@   trusted
-//@   modifies *c
-//@   preserves c.cc
+//@   modifies c.ptoTimerArmed, c.timer
 
 //@ func (*lossState).detectLoss(c, now, lossf)
 //@   trustcall lossf
@@ -878,3 +877,88 @@ func tpInRange(p transportParameters) bool {
 //@ func (*Stream).appendOutFramesLocked(s, w, pnum, pto) (r)
 //@   trusted
 //@   havocs except Stream.id, Conn.side
+
+// ---------------------------------------------------------------------------
+// loss.go: anti-amplification budget (property C27). While the client's address is not validated
+// the budget is a number of bytes: every received datagram adds exactly three times its size,
+// every sent packet takes exactly its size off (never below zero), nothing may be sent when less
+// than a minimum packet fits, and no datagram may be larger than the budget.
+
+// ampOK: the budget is either switched off or a byte count below 2^61.
+//
+//@ pure
+func ampOK(limit int) bool {
+	return limit == antiAmplificationUnlimited || (0 <= limit && limit <= 1<<61)
+}
+
+//@ func (*lossState).validateClientAddress(c)
+//@   requires c != nil
+//@   ensures  c.antiAmplificationLimit == antiAmplificationUnlimited
+//@   modifies c.antiAmplificationLimit
+//@
+//@ func (*lossState).maxSendSize(c) (r)
+//@   requires c != nil && c.cc != nil
+//@   ensures  r == min(c.antiAmplificationLimit, c.cc.maxDatagramSize)
+//@   ensures  r <= c.antiAmplificationLimit
+//@
+//@ func (*lossState).datagramReceived(c, now, size)
+//@   requires c != nil && 0 <= size && size <= 1<<20 && ampOK(c.antiAmplificationLimit)
+//@   ensures  old(c.antiAmplificationLimit) == antiAmplificationUnlimited ==> c.antiAmplificationLimit == antiAmplificationUnlimited
+//@   ensures  old(c.antiAmplificationLimit) != antiAmplificationUnlimited ==> c.antiAmplificationLimit == old(c.antiAmplificationLimit) + 3*size
+//@   noframe
+//@
+//@ func (*lossState).packetSent(c, now, log, space, sent)
+//@   requires c != nil && c.cc != nil && sent != nil && 0 <= space && space < numberSpaceCount
+//@   requires splOK(&c.spaces[space].sentPacketList) && len(c.spaces[space].p) <= 1<<39 && c.spaces[space].nextNum == sent.num
+//@   requires 0 <= sent.size && sent.size <= 1<<20 && ampOK(c.antiAmplificationLimit)
+//@   ensures  old(c.antiAmplificationLimit) == antiAmplificationUnlimited ==> c.antiAmplificationLimit == antiAmplificationUnlimited
+//@   ensures  old(c.antiAmplificationLimit) != antiAmplificationUnlimited ==> c.antiAmplificationLimit == max(0, old(c.antiAmplificationLimit) - sent.size)
+//@   noframe
+//@
+//@ func (*lossState).sendLimit(c, now) (limit, next)
+//@   requires c != nil && c.cc != nil
+//@   ensures  limit == ccBlocked <==> c.antiAmplificationLimit < minPacketSize
+//@   ensures  c.antiAmplificationLimit == old(c.antiAmplificationLimit)
+
+// lemmaAmpBudget: one step of the history "receive a datagram of r bytes, then send a packet that
+// fits in what maxSendSize allows": the budget moves by exactly 3r - s and stays non-negative, so
+// by induction over the history it equals 3*(bytes received) - (bytes sent) and the bytes sent never
+// exceed three times the bytes received.
+//
+//@ lemma
+//@ requires c != nil && c.cc != nil && sent != nil && 0 <= space && space < numberSpaceCount
+//@ requires splOK(&c.spaces[space].sentPacketList) && len(c.spaces[space].p) <= 1<<39 && c.spaces[space].nextNum == sent.num
+//@ requires 0 <= r && r <= 1<<20 && 0 <= c.antiAmplificationLimit && c.antiAmplificationLimit <= 1<<60
+//@ requires 0 <= sent.size && sent.size <= 1<<20
+//@ ensures  !fits || ok
+func lemmaAmpBudget(c *lossState, now time.Time, r int, space numberSpace, sent *sentPacket) (fits, ok bool) {
+	before := c.antiAmplificationLimit
+	c.datagramReceived(now, r)
+	fits = sent.size <= c.maxSendSize()
+	c.packetSent(now, nil, space, sent)
+	return fits, c.antiAmplificationLimit == before+3*r-sent.size && c.antiAmplificationLimit >= 0
+}
+
+// conn_send.go: the call site of the budget (property C27). Every datagram handed to the endpoint
+// is at most as large as the limit the packet writer was reset to, and that limit was at most the
+// anti-amplification budget at that moment. The many callees of maybeSend that build packets are
+// abstracted (havoccalls); that none of them changes the writer's limit or the connection's side is
+// checked on the call graph.
+//
+// The packet writer keeps the datagram within the limit it was reset to (assumed here; the frame
+// appenders check w.avail(), the packet finishers add the AEAD overhead reserved by start*).
+//
+//@ func (*packetWriter).datagram(w) (r)
+//@   trusted
+//@   requires w != nil
+//@   ensures  len(r) <= w.dgramLim
+//@
+//@ func (*Conn).maybeSend(c, now) (next)
+//@   havoccalls except packetWriter.dgramLim, Conn.side
+//@   requires c != nil
+//@   assert at call reset: $lim <= c.loss.antiAmplificationLimit
+//@   assert at call sendDatagram: len($dgram.b) <= c.w.dgramLim
+//@   loop 1 invariant c != nil
+//@   loop 2 invariant c != nil && len(buf) <= max(atloop(len(buf)), paddedInitialDatagramSize)
+//@   partial nopanic, pre
+//@   noframe
